@@ -20,7 +20,7 @@ def declare(spec):
         loop_invariants={0: [
             "0 <= i and i < len(probs)",
             "is_fin(p) and real(p) == psum(probs, i + 1)",
-            "forall_int(lambda j: implies(0 <= j and j < i, rdm_num > psum(probs, j + 1)))",
+            "forall_int(lambda j: implies(0 <= j and j < i, rdm_num >= psum(probs, j + 1)))",
         ]},
         props=["C09"])
     add(spec, "FIFO", types={"individuals": "list:Any"}, requires=["len(individuals) > 0"],
